@@ -67,6 +67,11 @@ func remoteFn(c vkit.Call) vkit.Reply {
 			return vkit.Reply{Status: 403}
 		}
 
+		if strings.Contains(string(c.Body), "answer-without-body") {
+			// a positive answer that carries no payload at all
+			return vkit.Reply{Status: 200, Header: map[string]string{"X-Remote-Echo": echo}}
+		}
+
 		level := 3
 		if strings.Contains(string(c.Body), "vip") {
 			level = 7
@@ -336,8 +341,17 @@ func genSubjectHandlerCase(t *rapid.T, family string) caseSpec {
 	}
 
 	if family == "remote_authorizer" {
-		pc["expressions"] = []any{map[string]any{"expression": "Payload.level >= 1"}}
+		// the prototype may come without expressions (the answer's status alone decides then)
+		if rapid.IntRange(0, 2).Draw(t, "protoExpressions") != 0 {
+			pc["expressions"] = []any{map[string]any{"expression": "Payload.level >= 1"}}
+		}
+
 		pc["forward_response_headers_to_upstream"] = []any{"X-Remote-Echo"}
+	}
+
+	// the remote system may answer without any body
+	if rapid.IntRange(0, 3).Draw(t, "answerWithoutBody") == 0 {
+		pc["payload"] = `{"sub":"{{ .Subject.ID }}","tier":"{{ .Values.tier }}","mode":"answer-without-body"}`
 	}
 
 	c := caseSpec{Family: family, RemotePath: remotePath, NT: nh+1 >= 2 || nv >= 2}
